@@ -404,6 +404,33 @@ func genC01(t *rapid.T) c01Case {
 	cli := rapid.IntRange(0, 9).Draw(t, "cli") == 0
 	lo := vLayoutOpts{Plain: !cli}
 	book, _ := vGenBook(t, vBookOpts{MaxRecipes: 12, MaxDepth: maxd, Wild: true, Exact: exact, Layout: lo}, "book")
+	// one case in eight: beside the random recipes, a chain nested exactly as deep as the limit allows (N-1
+	// references), ending in a basic element or in a recipe without entries
+	if rapid.IntRange(0, 7).Draw(t, "deepchain") == 0 {
+		var chain []vRec
+		if rapid.Bool().Draw(t, "toempty") {
+			chain = c11ChainToEmpty("deep=", n-1)
+		} else {
+			chain = c11Chain("deep=", n-1)
+		}
+		for ci := range chain { // the leaf of the chain must be a basic element whatever the random part defines
+			for li := range chain[ci].Lines {
+				if chain[ci].Lines[li].Name == "x" {
+					chain[ci].Lines[li].Name = "leaf=x"
+				}
+			}
+		}
+		book.Recs = append(book.Recs, chain...)
+		book.NoFinalNL = false
+		if len(book.Recs) > 1 {
+			perm := rapid.Permutation(vIota(len(book.Recs))).Draw(t, "chainperm")
+			nr := make([]vRec, len(perm))
+			for i, p := range perm {
+				nr[i] = book.Recs[p]
+			}
+			book.Recs = nr
+		}
+	}
 	return c01Case{Book: book, N: n, Exact: exact, PermSeed: rapid.Uint64().Draw(t, "permseed"), CLI: cli}
 }
 
